@@ -28,6 +28,9 @@ func FuzzNode(seed int64, steps int, idMul uint64) *Cluster {
 		Async:                     rng.Intn(2) == 0, PreVote: []bool{rng.Intn(2) == 0}, CheckQuorum: []bool{rng.Intn(2) == 0},
 		ReadOnlyLease: rng.Intn(6) == 0, DisableProposalForwarding: rng.Intn(6) == 0, StepDownOnRemoval: rng.Intn(2) == 0,
 		BaseIndex: uint64(rng.Intn(4))}
+	if rng.Intn(6) == 0 { // a log far into the index space (comparisons must not depend on small values)
+		o.BaseIndex += 1 << 63
+	}
 	if o.MaxInflightBytes != 0 && o.MaxInflightBytes < o.MaxSizePerMsg {
 		o.MaxInflightBytes = 0
 	}
@@ -73,6 +76,9 @@ func FuzzNode(seed int64, steps int, idMul uint64) *Cluster {
 	st := raft.NewMemoryStorage()
 	base := o.BaseIndex
 	bt := uint64(rng.Intn(3))
+	if rng.Intn(8) == 0 {
+		bt += 1 << 63
+	}
 	if base == 0 {
 		bt = 0
 	}
@@ -167,6 +173,9 @@ func FuzzNode(seed int64, steps int, idMul uint64) *Cluster {
 		termAt := func(i uint64) uint64 {
 			if t, err := n.RN.VerifTerm(i); err == nil && rng.Intn(5) != 0 {
 				return t
+			}
+			if tt := stt.GetTerm(); tt > 1<<40 { // huge terms: stay near the current one
+				return tt - uint64(rng.Intn(3)) + uint64(rng.Intn(3))
 			}
 			return uint64(rng.Intn(int(stt.GetTerm()) + 2))
 		}
